@@ -31,14 +31,10 @@ theorem secret_generated :
 token (the RFC 7009 §4.1.2 registry names), for every variant -/
 theorem hint_generated :
     (hintArms.map (·.1)).Perm (variants.map (·.1)) ∧
-    ∀ a ∈ hintArms, ∃ k, kindOf a.1 = some k ∧ a.2.map Form.lit = k.hint := by
-  constructor
-  · decide
-  · intro a ha
-    simp only [hintArms, List.mem_cons, List.not_mem_nil, or_false] at ha
-    rcases ha with rfl | rfl
-    · exact ⟨.access, rfl, by decide⟩
-    · exact ⟨.refresh, rfl, by decide⟩
+    (hintArms.all fun a => match kindOf a.1 with
+      | some k => decide (a.2.map Form.lit = k.hint)
+      | none => false) = true := by
+  constructor <;> decide
 
 /-- **every `From` conversion builds the variant named after its source type, around the argument itself** (owned or
 borrowed-and-cloned): converting a refresh token never yields the access-token kind, and vice versa -/
